@@ -1,7 +1,7 @@
 (* C08: file loaders agree with eps-copy of the file bytes and own a sound region. *)
 Require Import EV.Base.Tac EV.Base.Bytes EV.Base.Res EV.Base.ListX.
-Require Import EV.Model.Arith64 EV.Model.Types EV.Model.Layout EV.Model.Ser EV.Model.Deser EV.Model.Header EV.Model.Typing EV.Model.Need EV.Model.Loader.
-Require Import EV.Proofs.Monads EV.Proofs.RoundTrip EV.Proofs.HeaderRT EV.Proofs.EpsRT EV.Proofs.EpsTop EV.Proofs.LoaderP.
+Require Import EV.Model.Arith64 EV.Model.Types EV.Model.Layout EV.Model.Ser EV.Model.Deser EV.Model.Header EV.Model.Typing EV.Model.Need EV.Model.Loader EV.Model.Derive.
+Require Import EV.Proofs.Monads EV.Proofs.RoundTrip EV.Proofs.HeaderRT EV.Proofs.EpsRT EV.Proofs.EpsTop EV.Proofs.LoaderP EV.Proofs.DeriveP.
 
 (* store writes exactly the serialized stream (by definition of the model: the file is the
    bytes handed to the buffered file writer; observed on the implementation, including when the
@@ -25,6 +25,28 @@ Theorem C08_loaders_return_the_stored_value :
                 Ok (e, ndrop (nlen (bytes_of evs)) (region l (bytes_of evs)), evs_len evs) /\
               erase e = v.
 Proof. exact load_stored_file. Qed.
+
+(* For ANY file (stored by this library or not) that one of the three region-keeping loaders
+   accepts: every borrowed part of the loaded structure lies inside the backing region owned by
+   the result, has the byte length of its items, is aligned for its element type at the region's
+   address and holds the region's bytes ([eps_ok] over the region, see C03); what load_full
+   returns borrows nothing. *)
+Theorem C08_borrowed_parts_lie_inside_the_backing_region :
+  forall (l : loader) (base : N) (h : hdr) (t : ty) (file : list byte) (e : val) (rest : list byte) (n : N),
+    load l base h t file = Ok (e, rest, n) ->
+    match l with
+    | LFull => noref e = true
+    | _ => eps_ok base (region l file) (dty_of t) e /\ n <= nlen (region l file)
+    end.
+Proof.
+  intros l base h t file e rest n H. destruct l; cbn [load] in H.
+  - unfold deser_full_top in H. unfold rbind in H.
+    destruct (check_header None h file 0) as [[[u i] p]|?|?]; try discriminate.
+    exact (full_noref None t i p e rest n H).
+  - destruct (eps_top_ok base h t _ e rest n H) as (A & _ & B). split; assumption.
+  - destruct (eps_top_ok base h t _ e rest n H) as (A & _ & B). split; assumption.
+  - destruct (eps_top_ok base h t _ e rest n H) as (A & _ & B). split; assumption.
+Qed.
 
 (* The backing region starts with the file, has the rounded-up length (a multiple of 64 / of 16,
    less than one unit more than the file) and is zero from the end of the file on. *)
@@ -56,6 +78,7 @@ Theorem C08_truncated_files :
 Proof. exact load_truncated. Qed.
 
 Print Assumptions C08_loaders_return_the_stored_value.
+Print Assumptions C08_borrowed_parts_lie_inside_the_backing_region.
 Print Assumptions C08_region.
 Print Assumptions C08_flags.
 Print Assumptions C08_truncated_files.
